@@ -15,6 +15,8 @@ type ChainSpec struct {
 	// GenesisTime overrides the fixed genesis time (only needed where third-party library code
 	// compares header times with the wall clock, as go-header's syncer does).
 	GenesisTime time.Time
+	// CustomPayload: the chain uses a non-default signature payload provider (aggregator and full nodes alike)
+	CustomPayload bool
 }
 
 // Produced is a chain produced by a real aggregator Manager, with the bytes that travel.
@@ -68,7 +70,7 @@ func ProduceChain(ctx context.Context, spec ChainSpec, keys Keys) (*Produced, er
 	exec := NewExecDouble()
 	seq := NewSeqDouble()
 	da := NewDADouble()
-	n, err := NewNode(ctx, NodeOpts{Aggregator: true, InitialHeight: spec.Initial, GenesisTime: spec.GenesisTime}, keys, NewMemDS(NewImage()), exec, seq, da, nil)
+	n, err := NewNode(ctx, NodeOpts{Aggregator: true, InitialHeight: spec.Initial, GenesisTime: spec.GenesisTime, CustomPayload: spec.CustomPayload}, keys, NewMemDS(NewImage()), exec, seq, da, nil)
 	if err != nil {
 		return nil, err
 	}
